@@ -288,7 +288,11 @@ func (it *indexedMessageIterator) loadChunk(chunkIndex *ChunkIndex) error {
 		copy(chunkSlot.buf, parsedChunk.Records)
 	case CompressionZSTD:
 		if it.zstdDecoder == nil {
-			it.zstdDecoder, err = zstd.NewReader(nil)
+			// DecodeAll is held to the capacity of the buffer it is given, which was sized (and
+			// limit-checked) from the chunk's declared uncompressed size. Without that it
+			// allocates whatever the frame's own header claims, or grows as long as the frame
+			// keeps producing output.
+			it.zstdDecoder, err = zstd.NewReader(nil, zstd.WithDecodeAllCapLimit(true))
 			if err != nil {
 				return fmt.Errorf("failed to instantiate zstd decoder: %w", err)
 			}
